@@ -185,6 +185,11 @@ def well_formed(den):
             return False, "cell without geometry"
         if any(w[-1:].isalpha() for w in c["geometry"]):
             return False, "shortcut or word inside cell geometry (excluded from G)"
+    for d in den["data"]:
+        if is_per_cell_card(d["name"]):
+            n = len([v for v in d["entries"] if not (isinstance(v, dict) and v.get("w") == "no")])
+            if n > len(den["cells"]):
+                return False, "per-cell data card with more entries than cells"
     t = per_cell_table(den)
     for i in range(len(den["cells"])):
         for p in mode:
